@@ -234,3 +234,9 @@ func specValidChannelType(t datachannel.ChannelType) bool {
 	return t == datachannel.ChannelTypeReliable || t == datachannel.ChannelTypeReliableUnordered ||
 		specTypeHasRetransmits(t) || specTypeHasLifeTime(t)
 }
+
+// ---- C24: end-of-gathering marker
+// specPoolActive: candidates are being pooled (not yet flushed by SetLocalDescription).
+func specPoolActive(g *ICEGatherer) bool {
+	return g.iceCandidatePoolSize > 0 && g.candidatePool != nil
+}
